@@ -826,7 +826,8 @@ theorem program_eq {pb : Problem} (hwf : WellFormed pb) :
   rw [mapM_eq_ok_map (g := fun p : Nat × Nat => downE pb p ++ rightE pb p) (by
     intro p hp
     exact adjCs_closed hwf hrep (mem_cellsOf.1 hp)), ok_bind]
-  simp only [sqCs, sqE, regionCs, borderCs, List.map_map, Function.comp_def, List.append_assoc]
+  simp only [sqCs, regionCs, borderCs, List.map_map, Function.comp_def, List.append_assoc]
+  rfl
 
 theorem total (pb : Problem) (hwf : WellFormed pb) : ∃ P, program pb = .ok P := ⟨_, program_eq hwf⟩
 
